@@ -43,7 +43,7 @@ fn gen_sequences(tier: &str, seed: u64, out: &mut dyn FnMut(Value)) {
     use crate::dsl::SRule;
     let mut rng = Rng::new(seed ^ 0x5eed);
     let ids = [1i64, -1, 0, 2, 4294967297, -4294967295, 4294967296, i64::MIN, i64::MAX, -2, 8589934593];
-    let srcs = ["a", "a-", "a--", "b", ""];
+    let srcs = ["a", "a-", "a--", "b", "", "A", "B"];
     let n = if tier == "thorough" { 30000 } else { 2000 };
     for _ in 0..n {
         let mut m = vec![];
@@ -127,7 +127,7 @@ pub fn gen(tier: &str, seed: u64, out: &mut dyn FnMut(Value)) {
     let n = if tier == "thorough" { 100000 } else { 8000 };
     for _ in 0..n {
         let mut m = vec![];
-        for s in ["a", "b", "c", ""] {
+        for s in ["a", "b", "c", "", "A"] {
             if rng.chance(1, 2) {
                 let k = rng.below(4);
                 let ids: Vec<i64> = (0..k).map(|_| *rng.pick(&ext)).collect();
@@ -135,7 +135,7 @@ pub fn gen(tier: &str, seed: u64, out: &mut dyn FnMut(Value)) {
                 m.push(json!([s, ids]));
             }
         }
-        let src = *rng.pick(&["a", "b", "c", "", "zz"]);
+        let src = *rng.pick(&["a", "b", "c", "", "zz", "A", "B", "C"]);
         let id = *rng.pick(&ext);
         let nt = !m.is_empty();
         out(json!({"op": "admits", "mo": m, "src": src, "id": id, "tag": "random_extreme", "nt": nt}));
